@@ -184,6 +184,26 @@ def mode1(ctx):
     return m1
 
 
+def spec_schedules(ctx, name, kinds, rounds, per_round):
+    """Mode 2: disturbance schedules taken from behaviours of SD2.tla (tlc -simulate), applied to the two real stacks"""
+    from .. import simreplay
+    rng = random.Random("c04sim/%s/%s" % (ctx.seed, name))
+    out = []
+    for rnd in range(rounds):
+        ft = sorted(rng.sample(range(0, 18), rng.choice([1, 2, 3])))
+        consts = {"Match": "C04_Match", "Cfg": "C04_" + name, "Sw": "AllOff", "Kinds": kinds, "MaxFaults": rng.choice([2, 3, 4, 5]),
+                  "FaultWindow": 18, "Horizon": 24, "Delays": "{1, 2, 5}", "Sched": '"any"', "FaultTimes": "{%s}" % ", ".join(map(str, ft))}
+        for h in simreplay.behaviours2(consts, per_round, 2500, ctx.seed * 1000 + rnd):
+            faults = simreplay.faults_of(h)
+            if not faults:
+                continue
+            ev = run(name, faults)
+            out.append({"cfg": mcfg(name), "ev": monpass.add_adv(ev), "faults": faults, "config": name,
+                        "diag": {"config": name, "pattern": "F1" if f1_pattern(ev, name) else "", "from": "tlc -simulate (SD2Sim)",
+                                 "faults": [(f["t"], f["kind"], f.get("node", "")) for f in faults][:8]}})
+    return out
+
+
 def check(ctx):
     m1 = mode1(ctx)
     traces = traces_for(ctx.seed, ctx.pick(300, 5000), ctx.pick(4, 7))
@@ -200,6 +220,10 @@ def check(ctx):
         if name in GRACEFUL_ONLY:
             kn = [p for p in kn if p[0] == "stop"]
         traces += sweep(name, kn, range(0, ctx.pick(10, 24)), ctx.pick([0, 1, 3, 13], [0, 1, 2, 3, 4, 5, 8, 13, 20]))
+    sim = spec_schedules(ctx, "fin", "AllKinds", ctx.pick(4, 30), ctx.pick(5, 10)) + \
+        spec_schedules(ctx, "inf1", "InfKinds", ctx.pick(2, 15), ctx.pick(5, 10))
+    nsim = len(sim)
+    traces = sim + traces        # (first in line for trace validation as well)
     bad, ms = judge(ctx, "Mon_C04", traces, "two-stack runs", payload)
     # trace validation: is every real two-stack run a behaviour of SD2.tla ?
     from .. import conform
@@ -230,6 +254,7 @@ def check(ctx):
                     "judged by the TLA+ monitor Mon_C04 in TLC at every idle instant",
                monitor_traces=len(traces), monitor_failures=bad, monitor_states=ms,
                traces_validated_against_impl=acc, conformance_traces=total, spec_drift=total - acc,
+               spec_schedules_replayed=nsim,
                samples=[{"config": traces[5]["config"], "faults": traces[5]["faults"],
                          "trace": [e for e in traces[5]["ev"] if e["k"] not in ("idle", "adv")][:16]}])
     return ctx.finish("model_checking", cov, assumptions=[
